@@ -214,6 +214,10 @@ pub enum Lay {
     Step2,
     /// reversed (negative strides)
     Rev,
+    /// every 9th element of a larger allocation, in every axis (a column of a wide table: the
+    /// stride exceeds a cache line); `WideRev`: the same, reversed
+    Wide,
+    WideRev,
     /// general case: `perm` = memory order of the axes (number of the permutation of the n axes
     /// in lexicographic order, taken modulo n!), `rev` / `step` = bit a set: logical axis a is
     /// reversed / takes every second element; a window inside a larger poison-filled allocation.
